@@ -561,6 +561,10 @@ def oracle_stage(res, hbin, mbin, cases_path, tag, stats, kf_entries, kf_hits, l
         fam, shape, depth, two = class_parts(cls)
         ckey = fam + ("@2m" if two else "")
         stats["classes"][ckey] = stats["classes"].get(ckey, 0) + 1
+        if fam.startswith("nested_interface_subprogram") and st == "ok" and o.get("nd", 0) > 16 * o.get("nt", 0) + 64:
+            # regression of F54 (a41ca14): the number of diagnostics is linear in the input, not 2^n
+            o.setdefault("viol", []).append("nested interface lists of depth %s: %d diagnostics for %d tokens (exponential "
+                                            "error recovery?)" % (depth, o.get("nd", 0), o.get("nt", 0)))
         closed = cls.replace("@2m", "").endswith("/c")
         if fam == "deep" and st == "ok" and depth is not None and depth <= 256 and closed and shape in CLEAN_SHAPES:
             if o.get("nd", 0) != 0 or len(o.get("units", [])) != 1:
@@ -787,13 +791,11 @@ def main(tier, replay=None):
         if os.path.exists(copath):
             ops_stage(res, hbin, mbin, ("opsfile", copath), "corpus_ops", stats, ops_samples)
         gpath = os.path.join(d, "gen.cases")
-        # the lengths at which the OPEN findings F53 (long chains) / F54 (nested interface subprograms) manifest are
-        # generated only while known_findings.json lists them as open; the safe lengths always run
+        # the lengths at which the OPEN finding F53 (long chains) manifests are
+        # generated only while known_findings.json lists it as open; the safe lengths always run
         flags = ""
         if any(e["match"].get("shape") == "long_chain" for e in kf_entries):
             flags += "+chain"
-        if any(e["match"].get("shape") == "nested_interface_subprogram_unclosed" for e in kf_entries):
-            flags += "+nestproc"
         rc, out = run([hbin, "gen", str(seed()), tier + flags, gpath], timeout=3000)
         if rc != 0:
             res.violation("harness c02 gen crashed", {"kind": "harness", "log": out[-2000:]}, no_failing_input=True)
@@ -843,8 +845,9 @@ def main(tier, replay=None):
         "ending in `:`; nesting depths 50/200/600/5000/20000/100000 of 28 "
         "nesting shapes plus 44 further shapes (every way a primary, name, choice, association, constraint, resolution "
         "indication, interface list or generate alternative can contain itself) at 50/200/5000/100000, closed and unclosed, each on the main thread and on a 2 MiB-stack thread (beyond depth 256: a "
-        "`Nesting too deep` diagnostic is required); iterative chains (9 shapes) and unclosed nested interface subprograms at safe "
-        "lengths, at the lengths of the open findings F53/F54 only while these are listed in known_findings.json; exhaustively every sequence of <= 3 (thorough: 4) "
+        "`Nesting too deep` diagnostic is required); iterative chains (9 shapes) at safe lengths, at the lengths of "
+        "the open finding F53 only while it is listed in known_findings.json; nested interface subprograms (unclosed, balanced, "
+        "balanced without return type) at depths 1..300 (regression of F54: diagnostics linear in the input); exhaustively every sequence of <= 3 (thorough: 4) "
         "tokens over a 14-word alphabet. "
         "non-trivial = the input has >= 3 tokens and yields a unit or a diagnostic (or violates); distinct by hash of the "
         "input.  Cursor programs: 1-17 operations on streams of 0-30 tokens, non-trivial = >= 3 operations")
